@@ -92,6 +92,16 @@ CHECKS = {
         "Trusted: constant absolute paths across repetitions; OS thread ids in panic banners are masked (crashes are C10/C18's subject).",
         "DESIGN.md section 5, C16",
     ),
+    "C17": (
+        "concurrency stress monitor with sequential oracles over a logical-clock event log; delay injection through the guarded verif-hooks pause points; ThreadSanitizer (-Zbuild-std) and Miri (many seeds) in the thorough tier",
+        "Each storm runs one editing owner, 8 analysing threads on tagged snapshots inside salsa::Cancelled::catch, and 2 identifier-allocating threads for 150 rounds, with a seeded "
+        "yield/sleep policy inside source_input, set_overlay and load_optional. A completed analysis must equal the fresh-session answer of the revision its snapshot was tagged with; "
+        "the owner's answers at quiescent points and after the storm must equal fresh-session answers; all issued identifiers and key spaces must be distinct; 60 s without "
+        "logical-clock progress is a violation. Evidence records completed / cancelled / edit-overlapping analyses and distinct per-round event orders. The thorough tier repeats "
+        "the storm in a ThreadSanitizer build with std, salsa and dashmap instrumented and runs the allocator part under Miri with 16 seeds. Exploration: schedules are sampled.",
+        "Trusted: the fresh sequential session as oracle, salsa's cancellation contract (a cancelled analysis has no answer), the OS scheduler plus injected pauses as the source of interleavings.",
+        "DESIGN.md section 5, C17",
+    ),
     "C18": (
         "crash + invariant monitor over the real back end: BackendProgram::lower and every renderer/emitter under catch_unwind; independent re-validation of the SPS-low and assembly arenas and of the AMD64 / LLVM text (llvm-as-14)",
         "Every accepted generated program and every executable fixture is lowered through stack IR, closure conversion and assembly to AMD64 (2 formats) and LLVM (4 triples); a panic is a violation, "
@@ -179,7 +189,7 @@ def main():
         "setup_cmd": "bin/check --setup",
         "hooks": {
             "guard": "cargo feature `verif-hooks` of crate zydeco-session (off by default)",
-            "enable": "the harness crate /verif/harness enables the feature on its path dependency when built with `--features hooks`; every other observation uses public API only",
+            "enable": "the harness crate /verif/harness enables the feature on its zydeco-session path dependency (harness/Cargo.toml); the pause points are inert unless a check installs a policy, which only C17 does; every other observation uses public API only",
             "baseline_off_cmd": BASELINE["cmd"],
             "source_commits": hooks_commits,
             "add_only": True,
